@@ -4,16 +4,16 @@ CONSTANTS
   P <- PC
   Z0 <- Z0C
   Family = "cyl"
-  NrC = 4
-  NzC = 8
-  PZC = FALSE
+  NrC = 3
+  NzC = 3
+  PZC = TRUE
   DR = 4
   DZ = 4
-  Z0P = 13
-  Mode = "render"
-  R2S <- R2Sdef_q_cyl_ren
+  Z0P = 16
+  Mode = "free"
+  R2S <- R2Sdef_dev_cylp_closed
   ZStep = 1
-  CentralRule = "halfopen"
+  CentralRule = "closed"
   SpanRule = "whole"
 INVARIANT SingleCorrect
 INVARIANT PeriodicCorrect
